@@ -613,8 +613,14 @@ impl Prio3Visitor for ProtoProbe<'_> {
         let wit = json!({"config": desc});
 
         // (1) aggregator ids out of range
-        for id in [n, 255, 256, usize::MAX] {
-            let _ = misuse(ctx, &format!("Prio3<{k}>::verify_init"), "agg_id-out-of-range", wit.clone(), catch(|| vdaf.verify_init(&key, b"c16", id, &(), &nonce, &ps, &shares[0])));
+        // An identifier >= the number of aggregators is out of the domain whatever it is congruent to modulo
+        // 2^8 / 2^16 / 2^32: the call must return an error (an Ok means the identifier was truncated).
+        for id in [n, 255, 256, 257, 256 + n - 1, 512, 65536, 65537, (1usize << 32) + 1, usize::MAX - 255, usize::MAX] {
+            let share = &shares[if id % 256 < n { id % 256 } else { 0 }];
+            if misuse(ctx, &format!("Prio3<{k}>::verify_init"), "agg_id-out-of-range", wit.clone(), catch(|| vdaf.verify_init(&key, b"c16", id, &(), &nonce, &ps, share))).is_some() {
+                ctx.violation(format!("Prio3<{k}>::verify_init|agg_id-out-of-range|accepted"), "verify_init accepted an aggregator identifier that is not below the number of aggregators",
+                    json!({"config": desc, "id": id.to_string()}));
+            }
             ctx.eval();
             let b = shares[0].get_encoded().unwrap();
             if let Err(pi) = catch(|| <Prio3<T, P, 32> as Vdaf>::InputShare::get_decoded_with_param(&(&vdaf, id), &b).is_ok()) {
@@ -872,9 +878,13 @@ fn part_c_poplar_prio2(ctx: &mut Ctx) {
             let pref = IdpfInput::from_bools(&vec![true; level + 1]);
             let Ok(ap) = Poplar1AggregationParam::try_from_prefixes(vec![pref]) else { continue };
             let argcls = if level < bits { "level<bits" } else { "level>=bits" };
-            for id in [0usize, 1, 2, usize::MAX] {
+            for id in [0usize, 1, 2, 256, 257, 65537, usize::MAX] {
                 let a = if id > 1 { "agg_id-out-of-range" } else { argcls };
-                let r = misuse(ctx, "Poplar1::verify_init", a, json!({"bits": bits, "level": level, "id": id.to_string()}), catch(|| v.verify_init(&key, b"c16", id, &ap, &nonce, &ps, &shares[id.min(1)])));
+                let r = misuse(ctx, "Poplar1::verify_init", a, json!({"bits": bits, "level": level, "id": id.to_string()}), catch(|| v.verify_init(&key, b"c16", id, &ap, &nonce, &ps, &shares[id % 2])));
+                if r.is_some() && id > 1 {
+                    ctx.violation("Poplar1::verify_init|agg_id-out-of-range|accepted", "Poplar1 verify_init accepted an aggregator identifier other than 0 and 1",
+                        json!({"bits": bits, "level": level, "id": id.to_string()}));
+                }
                 if r.is_some() && level >= bits {
                     ctx.count("poplar1_level_ge_bits_accepted_by_verify_init");
                 }
